@@ -12789,7 +12789,8 @@ func (p *PathAttributeClusterList) DecodeFromBytes(data []byte, options ...*Mars
 	if err != nil {
 		return err
 	}
-	if p.Length%4 != 0 {
+	// RFC 7606 7.10: malformed if its length is not a non-zero multiple of 4
+	if p.Length == 0 || p.Length%4 != 0 {
 		eCode := uint8(BGP_ERROR_UPDATE_MESSAGE_ERROR)
 		eSubCode := uint8(BGP_ERROR_SUB_ATTRIBUTE_LENGTH_ERROR)
 		return NewMessageError(eCode, eSubCode, nil, "clusterlist length isn't correct")
